@@ -157,23 +157,23 @@ type ExternModel struct {
 
 // Externs is the table of every external callee the module is known to use (DESIGN App. B).
 var Externs = map[string]ExternModel{
-	"math/bits.Mul64":     {Ret: "none", Known: true},
-	"math/bits.Add64":     {Ret: "none", Known: true},
-	"math/bits.Sub64":     {Ret: "none", Known: true},
-	"math/bits.Mul32":     {Ret: "none", Known: true},
-	"math/bits.Add32":     {Ret: "none", Known: true},
-	"(encoding/binary.littleEndian).Uint32":    {Ret: "none", Known: true},
-	"(encoding/binary.littleEndian).Uint64":    {Ret: "none", Known: true},
-	"(encoding/binary.littleEndian).PutUint32": {Writes: []int{1}, Ret: "none", Known: true},
-	"(encoding/binary.littleEndian).PutUint64": {Writes: []int{1}, Ret: "none", Known: true},
-	"crypto/sha512.New":                        {Ret: "fresh", Known: true},
-	"io.ReadFull":                              {Writes: []int{1}, Ret: "none", Known: true, Entropy: true},
-	"crypto/subtle.ConstantTimeCompare":        {Ret: "none", Known: true},
-	"crypto/subtle.ConstantTimeCopy":           {Writes: []int{1}, Ret: "none", Known: true},
-	"bytes.Equal":                              {Ret: "none", Known: true, VarTime: true},
-	"strconv.Itoa":                             {Ret: "fresh", Known: true, VarTime: true},
-	"errors.New":                               {Ret: "fresh", Known: true, VarTime: true},
-	"fmt.Errorf":                               {Ret: "fresh", Known: true, VarTime: true},
+	"math/bits.Mul64":                           {Ret: "none", Known: true},
+	"math/bits.Add64":                           {Ret: "none", Known: true},
+	"math/bits.Sub64":                           {Ret: "none", Known: true},
+	"math/bits.Mul32":                           {Ret: "none", Known: true},
+	"math/bits.Add32":                           {Ret: "none", Known: true},
+	"(encoding/binary.littleEndian).Uint32":     {Ret: "none", Known: true},
+	"(encoding/binary.littleEndian).Uint64":     {Ret: "none", Known: true},
+	"(encoding/binary.littleEndian).PutUint32":  {Writes: []int{1}, Ret: "none", Known: true},
+	"(encoding/binary.littleEndian).PutUint64":  {Writes: []int{1}, Ret: "none", Known: true},
+	"crypto/sha512.New":                         {Ret: "fresh", Known: true},
+	"io.ReadFull":                               {Writes: []int{1}, Ret: "none", Known: true, Entropy: true},
+	"crypto/subtle.ConstantTimeCompare":         {Ret: "none", Known: true},
+	"crypto/subtle.ConstantTimeCopy":            {Writes: []int{1}, Ret: "none", Known: true},
+	"bytes.Equal":                               {Ret: "none", Known: true, VarTime: true},
+	"strconv.Itoa":                              {Ret: "fresh", Known: true, VarTime: true},
+	"errors.New":                                {Ret: "fresh", Known: true, VarTime: true},
+	"fmt.Errorf":                                {Ret: "fresh", Known: true, VarTime: true},
 	"golang.org/x/crypto/curve25519.ScalarMult": {Writes: []int{0}, Ret: "none", Known: true},
 	// the module's own assembly routine (summarised by the assembly linter, engine Z): writes *t only
 	"github.com/oasisprotocol/ed25519/internal/ge25519.scalarmultBaseChooseNielsAMD64": {Writes: []int{2}, Ret: "none", Known: true},
